@@ -23,7 +23,7 @@ EXTENDS Integers, Sequences
 CONSTANTS Add(_, _), Sub(_, _), Mul(_, _), Div(_, _), Neg(_), AbsLt(_, _), SmallLe(_, _), Zero, One, DefaultTol, TolZero, Defects
 VARIABLES pc, xs, ys, ds, tol, q, r, cc, p
 vars == <<pc, xs, ys, ds, tol, q, r, cc, p>>
-(* pc : "idle" | "table" | "horner" | "done" | "err";  (r, cc): the cell to fill next / r: the factor to multiply in next *)
+(* pc : "idle" | "table" | "horner" | "done" | "err" | "panic";  (r, cc): the cell to fill next / r: the factor to multiply in next *)
 
 M == 2 * Len(xs)
 Z(j) == xs[((j - 1) \div 2) + 1]
@@ -31,8 +31,10 @@ Init == pc = "idle" /\ xs = <<>> /\ ys = <<>> /\ ds = <<>> /\ tol = TolZero /\ q
 
 Begin(x, y, dv, t) ==
   /\ pc = "idle" /\ xs' = x /\ ys' = y /\ ds' = dv /\ tol' = t /\ p' = <<Zero>>
-  /\ IF Len(x) # Len(y) \/ Len(x) # Len(dv) \/ Len(x) = 0
+  /\ IF Len(x) # Len(y) \/ Len(x) # Len(dv)
        THEN pc' = "err" /\ q' = <<>> /\ r' = 0 /\ cc' = 0
+       ELSE IF Len(x) = 0                              \* no nodes at all: the code indexes an empty table and panics
+       THEN pc' = "panic" /\ q' = <<>> /\ r' = 0 /\ cc' = 0       \* (outside the property: it speaks of 1..8 nodes)
        ELSE LET m == 2 * Len(x)
                 zz(j) == x[((j - 1) \div 2) + 1]
                 yy(j) == y[((j - 1) \div 2) + 1]
@@ -81,5 +83,5 @@ Finish ==
      IN p' = SubSeq(s2, 1, TrimLen(s2, LAMBDA c : SmallLe(c, ptol)))
   /\ pc' = "done"
   /\ UNCHANGED <<xs, ys, ds, tol, q, r, cc>>
-Done == pc \in {"done", "err"} /\ UNCHANGED vars
+Done == pc \in {"done", "err", "panic"} /\ UNCHANGED vars
 =============================================================================
